@@ -397,6 +397,8 @@ impl<'a, 'tcx> Cx<'a, 'tcx> {
               let v: i128 = if t.is_signed() { si.to_int(size) } else { si.to_uint(size) as i128 };
               if v >= i64::MIN as i128 && v <= i64::MAX as i128 {
                 o.push(("iv", J::Num(v as i64)));
+              } else {
+                o.push(("ivs", J::s(format!("{}", v))));
               }
             }
           }
